@@ -42,6 +42,12 @@ Definition closure (c : code) (env : nat) : value :=
 
 Definition code_of (name : list Z) : option code := alist_get lib_codes (s name).
 
+(** the i-th parameter / the rest parameter of a library procedure, as named in the source *)
+Definition par (name : list Z) (i : nat) : str :=
+  match code_of name with Some (fm, _, _) => nth i (f_fixed fm) [] | None => [] end.
+Definition rst (name : list Z) : str :=
+  match code_of name with Some (fm, _, _) => match f_rest fm with Some r => r | None => [] end | None => [] end.
+
 (** the native procedures the library's code refers to *)
 Definition natives : list str := map s
   [[99;97;114]; [99;100;114]; [99;111;110;115]; [101;113;118;63]; [101;113;63]; [112;97;105;114;63]; [110;111;116];
